@@ -29,6 +29,7 @@ CONSTANTS
   BugRetryNoTimeout,\* F6: retransmissions wait without ResponseTimeout
   BugSubDup,        \* F10: subscriptions.applyTo appends duplicates
   BugRetryGoesOn,   \* F19: the Retry pass went on after a deferred request had failed and queued its own retry
+  DirectQoS0,       \* option DirectlyPublishQoS0: QoS 0 publishes are written by the caller on the current client
   Handlers,         \* C17: handler identities the application registers in turn (sequence; << >> = none)
   MaxInbound,       \* C17: number of inbound messages the broker sends
   BugHandleAfterConnect,  \* C17 non-vacuity: the handler is attached only after Connect returned
@@ -135,8 +136,9 @@ Init ==
   /\ hreg = 0 /\ bh = [g \in Gen |-> 0] /\ inb = 0 /\ hviol = FALSE
 
 \* ---------- application: RetryClient.Publish / Subscribe / Unsubscribe -> pushTask (retryclient.go:377) ----------
+IsDirect(r) == DirectQoS0 /\ IsPub(r) /\ Qos(r) = 0
 Submit ==
-  /\ submitted < N
+  /\ submitted < N /\ ~IsDirect(submitted + 1)
   /\ submitted' = submitted + 1
   /\ taskQ' = Append(taskQ, [t |-> "req", r |-> submitted + 1])
   /\ tok' = (tok \/ gen > 0)      \* chTask is nil before the first SetClient: the send falls to default
@@ -351,16 +353,41 @@ Observe(cur, st, g, sent) ==
       v2 == IF isPubPkt /\ ~dup /\ r \in txok THEN {"RetxWithoutDup"} ELSE {}
       v3 == IF isPubPkt /\ r \in relok THEN {"PubAfterRel"} ELSE {}
       v4 == IF r > 0 /\ r \in doneReq THEN {"TxAfterDone"} ELSE {}
-      v5 == IF isPubPkt /\ sent /\ r < lastPub[g] THEN {"OrderPerConn"} ELSE {}
-      v6 == IF firstTx /\ r < firstMax THEN {"FirstTxOrder"} ELSE {}
+      direct == r > 0 /\ IsDirect(r)        \* the order clauses are about the default (queued) mode
+      v5 == IF isPubPkt /\ sent /\ ~direct /\ r < lastPub[g] THEN {"OrderPerConn"} ELSE {}
+      v6 == IF firstTx /\ ~direct /\ r < firstMax THEN {"FirstTxOrder"} ELSE {}
       v7 == IF isPubPkt /\ Qos(r) = 0 /\ r \in txok THEN {"QoS0Retx"} ELSE {}
   IN /\ viol' = viol \cup v1 \cup v2 \cup v3 \cup v4 \cup v5 \cup v6 \cup v7
      /\ txc' = IF isPubPkt THEN [txc EXCEPT ![r] = Cap2(@ + 1)] ELSE txc
      /\ txok' = IF r > 0 /\ pk # "PUBREL" /\ sent THEN txok \cup {r} ELSE txok
      /\ relok' = IF pk = "PUBREL" /\ sent THEN relok \cup {r} ELSE relok
-     /\ lastPub' = IF isPubPkt /\ sent /\ r > lastPub[g] THEN [lastPub EXCEPT ![g] = r] ELSE lastPub
-     /\ firstMax' = IF firstTx /\ r > firstMax THEN r ELSE firstMax
+     /\ lastPub' = IF isPubPkt /\ sent /\ ~direct /\ r > lastPub[g] THEN [lastPub EXCEPT ![g] = r] ELSE lastPub
+     /\ firstMax' = IF firstTx /\ ~direct /\ r > firstMax THEN r ELSE firstMax
      /\ lastw' = [p |-> pk, g |-> g, r |-> r, dup |-> dup, ok |-> sent]
+
+\* DirectlyPublishQoS0 (retryclient.go:108-110): the application's goroutine hands a QoS 0 message to the CURRENT
+\* base client and returns its error; nothing is queued, nothing is retried.  (Before the first SetClient the code
+\* dereferences a nil client: not a step of this model.)
+SubmitDirect(o) ==
+  /\ submitted < N /\ IsDirect(submitted + 1) /\ gen > 0
+  /\ ~bc[gen].connecting                        \* publishImpl takes muConnecting.RLock
+  /\ submitted' = submitted + 1
+  /\ LET r == submitted + 1
+         g == gen
+         cur == [e |-> "req", r |-> r] IN
+     IF ~bc[g].sig
+     THEN /\ o = "ok"                          \* ErrNotConnected goes back to the caller; nothing is written
+          /\ UNCHANGED <<bc, faults>> /\ UNCHANGED bvars
+          /\ UNCHANGED <<txc, txok, relok, lastPub, firstMax, viol, lastw>>
+     ELSE IF ~bc[g].topen
+     THEN /\ o = "closed" /\ Observe(cur, "pub", g, FALSE)
+          /\ UNCHANGED <<bc, faults>> /\ UNCHANGED bvars
+     ELSE \/ /\ o = "ok" /\ Observe(cur, "pub", g, TRUE) /\ BrokerProcess(cur, "pub") /\ UNCHANGED <<bc, faults>>
+          \/ /\ o = "cutBefore" /\ faults < MaxFaults /\ faults' = faults + 1
+             /\ Observe(cur, "pub", g, FALSE) /\ bc' = [bc EXCEPT ![g].topen = FALSE] /\ UNCHANGED bvars
+          \/ /\ o = "cutAfter" /\ faults < MaxFaults /\ faults' = faults + 1
+             /\ Observe(cur, "pub", g, TRUE) /\ BrokerProcess(cur, "pub") /\ bc' = [bc EXCEPT ![g].topen = FALSE]
+  /\ UNCHANGED <<taskQ, tok, retryQ, subEst, nrbe, tg, gen, connErr, rl, dialled, doneReq, lost>> /\ UNCHANGED hvars
 
 \* how an exchange ends.  "ok": completed.  "retry": ErrorWithRetry with continuation `stage`.
 \* "plain": a plain error (ErrNotConnected, failed QoS 0 write): the request is dropped.
@@ -571,7 +598,7 @@ Inbound(g) ==
 Outcomes == {"ok", "closed", "cutBefore", "cutAfter", "dropReq", "dropAck"}
 
 Next ==
-  \/ Submit
+  \/ Submit \/ (\E o \in {"ok", "closed", "cutBefore", "cutAfter"} : SubmitDirect(o))
   \/ RLDialOk \/ RLDialFail \/ RLSetClient \/ RLConnectInit
   \/ (\E sp \in BOOLEAN : RLConnectOk(sp) \/ RLConnectLost(sp)) \/ RLConnectFail \/ RLPost \/ RLDown
   \/ (\E g \in Gen : PeerClose(g) \/ ServeExit(g))
@@ -581,7 +608,7 @@ Next ==
 
 \* fairness: everything the client, the loop and the reader do; the environment's faults are not fair
 ClientNext ==
-  \/ Submit \/ RLSetClient \/ RLConnectInit \/ RLPost \/ RLDown
+  \/ Submit \/ SubmitDirect("ok") \/ SubmitDirect("closed") \/ RLSetClient \/ RLConnectInit \/ RLPost \/ RLDown
   \/ (\E g \in Gen : ServeExit(g))
   \/ TGWait \/ TGTop \/ TGIdle \/ TGAfter \/ TGRunStart \/ TGRetryNext \/ TGResubNext \/ TGBegin
   \/ TGWrite("ok") \/ TGWrite("closed") \/ TGWaitClosed \/ TGTimeout
